@@ -4,7 +4,7 @@ from common import coq_list, parse_coq_values
 import shapes, nslgen
 from nslgen import *
 
-STATIC = ["Base/Syntax.v", "Base/SyntaxInd.v", "Spec/Scope.v", "Model/Names.v", "Proofs/ScopeProofs.v"]
+STATIC = ["Base/Syntax.v", "Base/SyntaxInd.v", "Spec/Scope.v", "Model/Names.v", "Proofs/ScopeProofs.v", "Proofs/UsesProofs.v"]
 
 HEADER = """From Coq Require Import String ZArith List Bool Arith PrimFloat.
 From NSL Require Import Base.Util Base.Types Base.Syntax Spec.Scope Model.Names.
